@@ -18,7 +18,7 @@ pub fn spec() -> PropSpec {
     PropSpec {
         id: "C18",
         level: "fault_enumeration",
-        rule: "fault sequences over {refuse (port closed for 1.5 s), accept+close, accept+frames+close, accept+frames+partial line+RST, accept+junk bytes incl. invalid UTF-8+close} followed by a healthy connection that sends new aircraft and stays open; the harness owns the loopback peer and runs the built CLI (release profile) with -t. Quick: every single fault, every ordered pair, and generated sequences of length 3-4; thorough: every sequence of length <= 3 plus generated ones of length 4. Oracle after every step and at the end: the process is alive; the healthy connection is accepted; the refresh printed after it lists every aircraft learned over cleanly delivered earlier connections and the new ones; no row for the truncated line; after a refusal the next accepted connection arrives >= 4.5 s after the refused attempt. Non-trivial = sequence with >= 1 mid-line reset or refusal and >= 1 aircraft learned before it; distinct by hash of the sequence",
+        rule: "fault sequences over {refuse (port closed for 1.5 s), accept+close, accept+frames+close, accept+frames+partial line+RST, accept+junk bytes incl. invalid UTF-8+close} followed by a healthy connection that sends new aircraft and stays open; the harness owns the loopback peer and runs the built CLI (release profile; three sequences, among them 3000 immediate closes, also with the dev profile's overflow checks) with -t. Quick: every single fault, every ordered pair, and generated sequences of length 3-4; thorough: every sequence of length <= 3 plus generated ones of length 4. Oracle after every step and at the end: the process is alive; the healthy connection is accepted; the refresh printed after it lists every aircraft learned over cleanly delivered earlier connections and the new ones; no row for the truncated line; after a refusal the next accepted connection arrives >= 4.5 s after the refused attempt. Non-trivial = sequence with >= 1 mid-line reset or refusal and >= 1 aircraft learned before it; distinct by hash of the sequence",
         assumptions: &["only the lower bound of the retry pause is asserted", "a reconnect that does not arrive within 60 s is reported as inconclusive (exit 2), not as a violation", "frames sent on a connection that is then reset may or may not have been read"],
         workers: 8,
         also_nochk: false,
@@ -52,6 +52,8 @@ pub enum Fault {
     ManyCloses,
     /// not a fault: the decoder is started with `-t localhost:<port>` instead of the numeric address
     UseHostName,
+    /// not a fault: the decoder binary of the dev profile (arithmetic-overflow checks on) is used instead of the release one
+    DevBuild,
     /// accept, deliver a frame, keep the connection open for 5.5 s, then close (a feed that ran for a while)
     HoldFrames,
 }
@@ -167,7 +169,8 @@ pub fn check(seq: &[Fault], case_id: u64) -> Result<Outcome, String> {
         ("localhost", 1u16).to_socket_addrs().map(|mut it| it.any(|a| a.ip() == std::net::IpAddr::V4(std::net::Ipv4Addr::LOCALHOST))).unwrap_or(false)
     };
     let use_host = seq.contains(&Fault::UseHostName) && resolves;
-    let seq: Vec<Fault> = seq.iter().cloned().filter(|f| *f != Fault::UseHostName).collect();
+    let dev_build = seq.contains(&Fault::DevBuild);
+    let seq: Vec<Fault> = seq.iter().cloned().filter(|f| *f != Fault::UseHostName && *f != Fault::DevBuild).collect();
     let seq = &seq[..];
     let starts_refused = matches!(seq.first(), Some(Fault::Refuse) | Some(Fault::LongRefuse) | Some(Fault::VeryLongRefuse));
     if starts_refused {
@@ -183,7 +186,7 @@ pub fn check(seq: &[Fault], case_id: u64) -> Result<Outcome, String> {
         extra.push("-D".into());
         extra.push(dlog.to_string_lossy().to_string());
     }
-    let mut child: Child = Command::new(cli::cli_path(true))
+    let mut child: Child = Command::new(cli::cli_path(!dev_build))
         .args(["-t", &format!("{}:{}", if use_host { "localhost" } else { "127.0.0.1" }, port), "--update=-1", "-i", "x", "-d", "100000"])
         .args(&extra)
         .stdin(Stdio::null())
@@ -351,7 +354,7 @@ fn drive(seq: &[Fault], peer: &mut Peer, child: &mut Child, outpath: &std::path:
                 learned.push(a);
                 drop(conn);
             }
-            Some(Fault::Refuse) | Some(Fault::LongRefuse) | Some(Fault::VeryLongRefuse) | Some(Fault::UseHostName) => unreachable!(),
+            Some(Fault::Refuse) | Some(Fault::LongRefuse) | Some(Fault::VeryLongRefuse) | Some(Fault::UseHostName) | Some(Fault::DevBuild) => unreachable!(),
             None => {
                 // healthy connection: new aircraft, stays open
                 let (a, lines) = new_aircraft(k);
@@ -425,6 +428,10 @@ fn sequences(c: &mut Ctx) -> Vec<Vec<Fault>> {
     v.push(vec![Fault::FramesClose, Fault::VeryLongRefuse]);
     v.push(vec![Fault::FramesClose, Fault::ManyCloses, Fault::FramesClose]);
     v.push(vec![Fault::UseHostName, Fault::FramesClose, Fault::Refuse]);
+    // the same through the dev-profile binary: per-connection bookkeeping must not overflow or trip a debug assertion
+    v.push(vec![Fault::DevBuild, Fault::FramesClose, Fault::ManyCloses, Fault::FramesClose]);
+    v.push(vec![Fault::DevBuild, Fault::FramesClose, Fault::PartialReset(14), Fault::JunkClose]);
+    v.push(vec![Fault::DevBuild, Fault::FramesClose, Fault::Refuse]);
     v.push(vec![Fault::PartialClose(14)]);
     v.push(vec![Fault::PartialClose(27), Fault::FramesClose]);
     v.push(vec![Fault::FramesClose, Fault::PartialClose(28)]);
